@@ -46,7 +46,8 @@ NKEYS = 3
 
 
 def tol(t):
-    return max(2 * RES, 4 * math.ulp(t))
+    # (a deadline reached through several partial timers accumulates a few ulps of rounding - at 2.5e7 s an ulp is 3.7 ns)
+    return max(2 * RES, 16 * math.ulp(t))
 
 
 # ------------------------------------------------------------------------------- script generation
@@ -86,7 +87,15 @@ def gen_history(rng, driver):
                 # (an operation less than a resolution after another one would be run together with it, i.e. earlier than
                 # the model is told - the loop runs every timer with when < time() + resolution)
                 placement = "far"
-        if placement == "far":
+        if placement == "far" and rng.random() < 0.08 and any(d is not None and d != math.inf and d > now + 3.0e6 for d in state.values()):
+            # weeks into a TTL of 0xFFFFFE seconds: whatever keeps that deadline must still be cancellable / movable then
+            placement = "deep"
+            t = now + rng.choice((2.2e6, 4.0e6, 9.0e6)) + rng.randrange(0, 64) / 8.0
+            while any(d is not None and d != math.inf and abs(d - t) < 1.0 for d in state.values()):
+                t += 2.0
+            rank = BEFORE
+            flags["deep"] = flags.get("deep", 0) + 1
+        elif placement == "far":
             t = now + rng.choice((1, 2, 4, 8, 12, 20, 24, 36)) / 8.0
             # keep clear of every deadline so that 'far' really is unambiguous
             while any(d is not None and d != math.inf and abs(d - t) < 4 * EPS for d in state.values()):
@@ -407,12 +416,15 @@ def judge(ctx, driver, ops, expected, horizon, has_inf, seed, replay):
                 ctx.count("rejected_new_entries")
             elif op == "refresh":
                 k = {"d-eps": "refresh_d_minus_eps", "d:before": "refresh_at_d_before", "d:after": "refresh_at_d_after",
-                     "d+eps": "refresh_d_plus_eps", "far": "refresh_far", "d-res": "refresh_within_resolution_before_d"}[pl]
+                     "d+eps": "refresh_d_plus_eps", "far": "refresh_far", "d-res": "refresh_within_resolution_before_d",
+                     "deep": "refresh_weeks_into_a_long_ttl"}[pl]
                 ctx.count(k)
             else:
                 ctx.count("removed_then_no_expiry")
             if pl == "d-res":
                 ctx.count("wakeups_within_resolution_before_a_deadline")
+            if pl == "deep":
+                ctx.count("operations_weeks_into_a_long_ttl")
         if has_inf and end > FOREVER:
             ctx.count("infinite_entries_outlived_clock")
     return ok
